@@ -129,8 +129,15 @@ def run_case(case):
             elif pres == "partial_name":
                 call = lambda: ffuncs.pair.partial(prefix=prefix).call_batch([{"k": k} for k in batch], raise_first_exception=raise_first)
             else:
-                call = lambda: ffuncs.pair.partial(prefix).map_over_range(k=list(batch))
+                # the range is any iterable: sequences, views and one-shot iterators
+                rkind = rng.choice(["list", "tuple", "generator", "iter", "reversed", "map", "dict_keys"])
+                mk_range = {"list": lambda: list(batch), "tuple": lambda: tuple(batch), "generator": lambda: (k for k in batch),
+                            "iter": lambda: iter(list(batch)), "reversed": lambda: reversed(list(reversed(batch))),
+                            "map": lambda: map(int, [str(k) for k in batch]), "dict_keys": lambda: dict.fromkeys(batch).keys()}[rkind]
+                call = lambda: ffuncs.pair.partial(prefix).map_over_range(k=mk_range())
                 raise_first = True
+                label += " range given as %s" % rkind
+                out["sets"]["presentations"].add("map/%s" % rkind)
             got = outcome_of(call)
             events = REC.since(mark)
             out["obs"]["batches"] += 1
@@ -145,8 +152,9 @@ def run_case(case):
             else:
                 res = got[1]
                 if pres == "map":
-                    if not isinstance(res, dict) or set(res) != set(batch):
-                        fail("map_over_range does not return one entry per value of the range", "%s: %s" % (label, domain.describe(res, 200)))
+                    if not isinstance(res, dict) or list(res) != list(dict.fromkeys(batch)):
+                        fail("map_over_range does not return one entry per value of the range, in range order",
+                             "%s: %s" % (label, domain.describe(res, 200)))
                         res = None
                     else:
                         res = [res[k] for k in batch]
